@@ -1006,6 +1006,22 @@ def base_outcome(scn, res):
     faults = {}
     if res.counters.get('dsfault_fired'):
         faults['datastore_raise'] = res.counters['dsfault_fired']
+    # what was actually injected in this run (fired, not merely configured)
+    for k_, name in (('peer_eof', 'peer_closed_connection'), ('peer_reset', 'peer_reset_connection')):
+        if res.counters.get(k_):
+            faults[name] = res.counters[k_]
+    n_cut = sum(1 for reqs in scn['conns'] for r in reqs if r.get('cuts'))
+    if n_cut:
+        faults['frame_delivered_in_pieces'] = n_cut
+    n_join = sum(1 for reqs in scn['conns'] for r in reqs if r.get('join'))
+    if n_join:
+        faults['frames_coalesced_in_one_read'] = n_join
+    n_dup = sum(1 for reqs in scn['conns'] for r in reqs if r.get('dup'))
+    if n_dup:
+        faults['datagram_duplicated'] = n_dup
+    n_raw = sum(1 for reqs in scn['conns'] for r in reqs if r.get('raw') is not None)
+    if n_raw:
+        faults['hostile_chunk'] = n_raw
     probes = {
         'tw_conn_dropped_on_exception': res.counters.get('tw_conn_dropped_on_exception', 0),
     }
@@ -1032,6 +1048,11 @@ def shrink_steps(scn):
         for i in range(len(scn['conns'])):
             s = copy.deepcopy(scn)
             del s['conns'][i]
+            if s.get('peer_closes'):
+                # connection indices shift
+                s['peer_closes'] = [dict(pc, c=pc['c'] - (1 if pc['c'] > i else 0)) for pc in s['peer_closes'] if pc['c'] != i]
+                if not s['peer_closes']:
+                    s.pop('peer_closes')
             yield s
     # 2. drop requests
     for c, reqs in enumerate(scn['conns']):
@@ -1042,7 +1063,7 @@ def shrink_steps(scn):
             s['conns'][c] = cand
             yield s
     # 3. drop faults / options
-    for key in ('dsfault', 'closes'):
+    for key in ('dsfault', 'closes', 'peer_closes'):
         if scn.get(key):
             s = copy.deepcopy(scn)
             s.pop(key)
